@@ -25,6 +25,18 @@ REPL = [
     (r"\(v1, v2\b", ["(v2, v1"]), (r"\bv1\b", ["v2"]), (r"\bv2\b", ["v1"]), (r"\bleft\b", ["right"]), (r"\bright\b", ["left"]),
     (r"\.skip\(1\)", [".skip(0)", ".skip(2)"]), (r"!(?=[a-z(])", [""]),
     (r"\.is_empty\(\)", [".is_empty() == false"]), (r"\bSome\(", ["None.or(Some("]) ,
+    # batch 3
+    (r"\.first\(\)", [".last()"]), (r"\.last\(\)", [".first()"]), (r"\.is_some\(\)", [".is_none()"]), (r"\.is_none\(\)", [".is_some()"]),
+    (r"\.is_ok\(\)", [".is_err()"]), (r"\.is_err\(\)", [".is_ok()"]), (r"to_be_bytes", ["to_le_bytes"]), (r"from_be_bytes", ["from_le_bytes"]),
+    (r"\.min\(", [".max("]), (r"\.max\(", [".min("]), (r"\.map\(str::trim\)", [""]), (r"\.rev\(\)", [""]),
+    (r"(?<![=!<>] )self\.next_v\b(?! [+\-]?=)", ["0"]),
+    (r"'α'", ["'β'"]), (r"' '", ["'_'"]), (r"'\$'", ["'#'"]), (r"'ν'", ["'v'"]), (r"'ρ'", ["'σ'"]),
+    (r"\.chars\(\)\.count\(\)", [".len()"]), (r"\.len\(\)", [".len() + 1", ".len() - 1"]),
+    (r"\((\w+), (\w+)(?=[,)])", ["SWAP2"]),
+    # batch 4: another variable of the same type in scope
+    (r"\bours\b", ["theirs"]), (r"\btheirs\b", ["ours"]), (r"\bvtx1\b", ["vtx2"]), (r"\bvtx2\b", ["vtx1"]), (r"\bfirst\b(?!\()", ["*second"]),
+    (r"\bdone\b", ["todo"]), (r"\btodo\b", ["done"]), (r"\bmatched\b", ["left"]), (r"\*to\b", ["right"]), (r"\*t\b", ["left"]),
+    (r"\be\.1\b", ["v"]), (r"\bb\.0\b", ["ours"]), (r"\bseen\.contains\(e\.1\)", ["seen.contains(&v)"]),
 ]
 SKIP_LINE = re.compile(r"^\s*(//|#\[|use |pub use |mod |pub mod |trace!|debug!|\"|\*|///)|panic!|anyhow!\(|format!\(\s*$|with_context|\.context\(|expect\(")
 
@@ -60,6 +72,10 @@ def gen():
                     for new in news:
                         if pat == r"\bSome\(":
                             continue
+                        if new == "SWAP2":
+                            if m.group(1) == m.group(2) or m.group(1).isdigit() and m.group(2).isdigit():
+                                continue
+                            new = "(%s, %s" % (m.group(2), m.group(1))
                         mut = line[:m.start()] + new + line[m.end():]
                         if mut == line or mut in seen:
                             continue
@@ -77,6 +93,19 @@ def gen():
             # statement deletion: a simple statement on one line
             if re.match(r"^\s*[\w.*\[\]&() ]+(\.\w+\(.*\)|\s[+\-]?=\s.*);$", line) and not st.startswith(("let ", "return", "Ok(", "Err(")):
                 out.append({"file": f, "line": li + 1, "old": line, "new": re.match(r"^\s*", line).group(0) + "();", "op": "delete statement"})
+        # skip a loop body / a unit function body
+        for li, line in enumerate(code):
+            if re.match(r"^\s*for .* \{$", line) and not line.strip().startswith("/"):
+                out.append({"file": f, "line": li + 1, "old": line, "new": line + " continue;", "op": "skip loop body"})
+                out.append({"file": f, "line": li + 1, "old": line, "new": line + " break;", "op": "leave loop at once"})
+            if re.match(r"^\s*(pub )?fn \w+(<[^>]*>)?\(.*\) \{$", line):
+                out.append({"file": f, "line": li + 1, "old": line, "new": line + " return;", "op": "skip function body"})
+        # swap two adjacent simple statements of the same indentation
+        simple = lambda l: re.match(r"^\s+.*;$", l) and not l.strip().startswith(("/", "*", "#")) and not re.match(r"^\s*(let |return|break|continue|use |\}|trace!|debug!)", l) and l.count("(") == l.count(")")
+        for li in range(len(code) - 1):
+            a, b2 = code[li], code[li + 1]
+            if simple(a) and simple(b2) and re.match(r"^\s*", a).group(0) == re.match(r"^\s*", b2).group(0) and a != b2:
+                out.append({"file": f, "line": li + 1, "old": a, "new": b2, "old2": b2, "new2": a, "op": "swap with next statement"})
     for i, m in enumerate(out):
         m["id"] = "M%04d" % i
     os.makedirs(os.path.join(VERIF, "mutants"), exist_ok=True)
@@ -112,6 +141,9 @@ def apply(d, m):
     lines = open(os.path.join(REPO, m["file"])).read().split("\n")
     assert lines[m["line"] - 1] == m["old"], m
     lines[m["line"] - 1] = m["new"]
+    if "new2" in m:
+        assert lines[m["line"]] == m["old2"], m
+        lines[m["line"]] = m["new2"]
     open(p, "w").write("\n".join(lines))
 
 
@@ -125,8 +157,9 @@ def test(slot, k, n):
     env = dict(os.environ, CARGO_NET_OFFLINE="true")
     outp = os.path.join(VERIF, "mutants", "tested-%s.jsonl" % slot)
     done = set()
-    if os.path.exists(outp):
-        done = {json.loads(l)["id"] for l in open(outp)}
+    for fn in os.listdir(os.path.join(VERIF, "mutants")):
+        if fn.startswith("tested-"):
+            done |= {json.loads(l)["id"] for l in open(os.path.join(VERIF, "mutants", fn))}
     for i in range(k, len(ms), n):
         m = ms[i]
         if m["id"] in done:
@@ -166,8 +199,14 @@ def doc(slot, k, n):
     d = slot_dir(slot)
     env = dict(os.environ, CARGO_NET_OFFLINE="true")
     outp = os.path.join(VERIF, "mutants", "doc-%s.jsonl" % slot)
+    ddone = set()
+    for fn in os.listdir(os.path.join(VERIF, "mutants")):
+        if fn.startswith("doc-"):
+            ddone |= {json.loads(l)["id"] for l in open(os.path.join(VERIF, "mutants", fn))}
     for i in range(k, len(surv), n):
         m = ms[surv[i]]
+        if m["id"] in ddone:
+            continue
         apply(d, m)
         try:
             p = subprocess.run(["cargo", "test", "--offline", "--doc", "-q"], cwd=d, env=env, capture_output=True, text=True, timeout=900)
@@ -192,6 +231,8 @@ def patches():
         a = open(os.path.join(REPO, m["file"])).read().split("\n")
         b = list(a)
         b[m["line"] - 1] = m["new"]
+        if "new2" in m:
+            b[m["line"]] = m["new2"]
         import difflib
         diff = "".join(difflib.unified_diff([x + "\n" for x in a], [x + "\n" for x in b], "a/" + m["file"], "b/" + m["file"], n=3))
         dd = os.path.join(VERIF, "mutants", "survivors", mid)
